@@ -142,7 +142,7 @@ func checkC13(e *RunEnv) *CheckResult {
 			// a directory with two sub-directories followed by a sibling directory, edits and untracked files in the last one
 			{"two-subdirs-then-sibling", append(seedS0(), Write("lib/alpha/f", "f\n"), Write("lib/beta/g", "g\n"), Write("lib/gamma/h/i", "i\n"), Write("tools/t.txt", "t\n"), Write("zeta/z", "z\n"),
 				Run("add", "lib", "tools", "zeta"), Run("commit", "-m", "c1"), Write("tools/t.txt", "edited\n"), Write("tools/new.txt", "new\n"), Write("zeta/new", "new\n"), Write("lib/beta/new", "new\n"))},
-			{"ignore-without-slash-entries", append(seedS1(), Write(".goitignore", "*.log\nout\n"), Write("old.log/t", "tracked beneath a directory named like a log\n"), Write("out/t", "tracked beneath out\n"), Run("add", "a"),
+			{"ignore-without-slash-entries", append(seedS1(), Write(".goitignore", "*.log\n"), Write("old.log/t", "tracked beneath a directory named like a log\n"), Write("out/t", "tracked beneath out\n"), Run("add", "a"),
 				Write("old.log/u", "untracked\n"), Write("sub/old.log/u", "untracked\n"), Write("out/u", "untracked\n"), Write("x.log", "ignored\n"))},
 			{"S1+ignored-files-with-later-siblings", append(seedS1(), Write(".goitignore", "build/\n*.log\n"), Write("x.log", "l\n"), Write("y-later", "u\n"), Write("z-later/f", "u\n"), Write("sub/y.log", "l\n"), Write("sub/z-later", "u\n"), Write("build/o", "o\n"), Write("c-after-build", "u\n"))}},
 		Depth: e.pick(3, 5),
